@@ -1,5 +1,5 @@
 INIT StrInit
-NEXT Next
+NEXT StrNext
 CONSTANTS
   Fixes <- EnvFixes
   AtomSet = {"a"}
